@@ -281,6 +281,11 @@ def flush_histories(ctx, reqs, pending):
         if isinstance(model, dict) and "__error__" in model:
             ctx.disagree("Tdm.history (model error)", case, model, None)
             continue
+        if isinstance(model, dict) and "dict" in model:
+            names = steps.pop("names")
+            if model != steps or names != [kv[0] for kv in model["dict"]]:
+                ctx.disagree("Tdm.parametersDict/resolveNamed vs TDMProgram.parameters / loop_vars", case, model, dict(steps, names=names))
+            continue
         if isinstance(model, dict) and "order" in model:
             model.pop("rank", None)
             if model != steps:
@@ -308,11 +313,13 @@ def corr_reshape(ctx, sf):
     rng = ctx.rng
     reqs, impl = [], []
     for _ in range(ctx.n(120, 1500)):
-        N = list(rng.choice(T.N_CHOICES + [[5], [8, 1], [4, 3]]))
+        N = list(rng.choice(T.N_BIG if rng.random() < 0.15 else T.N_CHOICES + [[5], [8, 1], [4, 3]]))
         starts = T.band_starts(N)
         offs = [0 if rng.random() < 0.7 else rng.randrange(n) for n in N]
         modes = [s + o for s, o in zip(starts, offs)]
         shots, tb = rng.randint(1, 3), rng.randint(1, 5)
+        if rng.random() < 0.1:
+            shots, tb = rng.choice([(10, 2), (11, 1), (2, 10), (1, 12), (3, 11)])
         case = dict(N=N, modes=modes, shots=shots, T=tb)
         ctx.count("reshape", case, tb >= 2 and (sum(N) >= 2 or shots >= 2))
         # the raw dictionary the engine collects from the shift-unrolled circuit (computed by hand)
@@ -422,7 +429,7 @@ def corr_crop(ctx, sf):
         impl.append(("crop", spec, dict(delays=delays, crop=crop)))
         ctx.count("crop:random", spec, delays not in (None, []))
         # (ii) vacuum_padding vs get_crop_value of the padded multi-loop program
-        d = rng.randint(1, 3)
+        d = rng.randint(1, 3) if rng.random() < 0.7 else rng.randint(4, 7)  # with >= 5 loops the loop variables reach p10+
         dl = [rng.randint(1, 4) for _ in range(d)]
         L = rng.randint(1, 6)
         alphas = []
@@ -815,6 +822,10 @@ def run_item(ctx, sf, item, reqs, pending):
         unroll_case(ctx, sf, item["spec"], item["shots"], item["space"], reqs, pending, item.get("share", False))
 
 
+def p2_names(sf, spec):
+    return T.build(sf, spec).loop_vars
+
+
 def unroll_case(ctx, sf, spec, shots, space, reqs, pending, share=False):
     """a single (space-)unrolling compared as a one-call history; programs need not be runnable"""
     evs = [dict(ev="space_unroll" if space else "unroll", shots=shots), dict(ev="roll")]
@@ -827,6 +838,14 @@ def unroll_case(ctx, sf, spec, shots, space, reqs, pending, share=False):
                      dict(kind="unroll_flags", spec=spec, shots=shots, space=space, share=share))
     reqs.append(dict(op="tdm.history", evs=evs, **T.model_cfg(spec)))
     pending.append((case, steps))
+    # loop variables are resolved by name: TDMProgram.parameters (keys and arrays) and parameters[name][t % timebins]
+    names = [str(v.name) for v in p2_names(sf, spec)]
+    look = [dict(name=rng_name, t=t) for rng_name, t in [(names[(7 * k + shots) % len(names)], (3 * k + shots) % (2 * spec["T"] + 1)) for k in range(4)]]
+    pr = T.build(sf, spec, share=share)
+    real_dict = [[str(k), [T.canon_par(v) for v in a]] for k, a in pr.parameters.items()]
+    real_look = [T.canon_par(pr.parameters[l["name"]][l["t"] % pr.timebins]) for l in look]
+    reqs.append(dict(op="tdm.parameters", lookups=look, **{k: v for k, v in T.model_cfg(spec).items() if k != "rolled"}))
+    pending.append((dict(spec=spec, what="parameters"), dict(dict=real_dict, lookups=real_look, names=names)))
     # TDMProgram.get_mode_order / measured_modes on the unrolled program vs the model
     p2 = T.build(sf, spec, share=share)
     (p2.space_unroll if space else p2.unroll)(shots=shots)
@@ -877,7 +896,7 @@ def run(ctx, sf):
     corr_crop(ctx, sf)
     # ---- single unrollings, any shift / flags / integer tags (not executed)
     for _ in range(ctx.n(120, 1500)):
-        spec = T.gen_spec(rng, True, off_head=0.2)
+        spec = T.gen_spec(rng, True, off_head=0.2, big=0.2)
         for o in spec["ops"]:
             if T.is_meas(o) and rng.random() < 0.3:
                 o["s"] = rng.randint(1, 3)
@@ -888,17 +907,19 @@ def run(ctx, sf):
             for o in spec["ops"]:
                 if T.is_meas(o):
                     o.update(cls="MeasureFock", pars=[], s=None, dc=rng.randint(1, 3))
-        unroll_case(ctx, sf, spec, rng.choice([1, 1, 2, 3]), space, reqs, pending, share=rng.random() < 0.5)
+        shots_u = rng.choice([10, 11]) if rng.random() < 0.06 and spec["T"] < 10 and sum(spec["N"]) < 10 else rng.choice([1, 1, 2, 3])
+        unroll_case(ctx, sf, spec, shots_u, space, reqs, pending, share=rng.random() < 0.5)
     flush_histories(ctx, reqs, pending)
     # ---- call histories: exhaustive up to length L on two small programs, random longer ones
     S = lambda r, m: dict(cls="Sgate", regs=[m], pars=[r, 0], d=False, s=None)
     small = [dict(N=[2], shift="default", T=2, params=[[1, 2], [0, 1]],
                   ops=[S(1, 1), dict(cls="BSgate", regs=[0, 1], pars=["p0", 0], d=False, s=None),
                        dict(cls="MeasureHomodyne", regs=[0], pars=["p1"], d=False, s=None)]),
-             dict(N=[1, 2], shift="default", T=3, params=[[1, 2, 3], [0, 1, 2]],
-                  ops=[S(1, 2), dict(cls="BSgate", regs=[1, 2], pars=["p0", 1], d=True, s=None),
+             # twelve arrays: the loop variables p1, p10 and p11 (names that are prefixes of one another) are all used
+             dict(N=[1, 2], shift="default", T=3, params=[[10 * i + 1, 10 * i + 2, 10 * i + 3] for i in range(12)],
+                  ops=[S(1, 2), dict(cls="BSgate", regs=[1, 2], pars=["p10", 1], d=True, s=None),
                        dict(cls="Rgate", regs=[0], pars=["p1"], d=False, s=None),
-                       dict(cls="MeasureHomodyne", regs=[1], pars=["p1"], d=False, s=None),
+                       dict(cls="MeasureHomodyne", regs=[1], pars=["p11"], d=False, s=None),
                        dict(cls="MeasureHomodyne", regs=[0], pars=["p0"], d=False, s=None)])]
     Lmax = 3 if ctx.tier == "quick" and ctx.boost == 1 else 4
     for si, spec in enumerate(small):
@@ -948,14 +969,18 @@ def run(ctx, sf):
     # ---- the explicit loop
     for i in range(ctx.n(120, 1500)):
         shift = "default" if rng.random() < 0.65 else None
-        spec = T.gen_spec(rng, False, shift=shift, mz=True, off_head=0.15)
-        oracle_loop(ctx, sf, spec, rng.choice([1, 1, 2, 3]), xs[i % 31:] + xs[:i % 31], share=rng.random() < 0.5)
+        spec = T.gen_spec(rng, False, shift=shift, mz=True, off_head=0.15, big=0.06)
+        shots_l = 1 if sum(spec["N"]) >= 10 or spec["T"] >= 10 else rng.choice([1, 1, 2, 3])
+        oracle_loop(ctx, sf, spec, shots_l, xs[i % 31:] + xs[:i % 31], share=rng.random() < 0.5)
     # the hash-order case: second band measured first, band starts 0 and 8
     spec = T.gen_spec(rng, False, N=[8, 1], T=2, shift="default", max_ops=3)
     ms = [o for o in spec["ops"] if T.is_meas(o)]
     rest = [o for o in spec["ops"] if not T.is_meas(o)]
     spec["ops"] = rest + sorted(ms, key=lambda o: -o["regs"][0])
     oracle_loop(ctx, sf, spec, 2, xs)
+    # two-digit everything, executed: ten bands (measured slots 0,2,3,...,13), 11-14 parameter arrays, two shots
+    spec = T.gen_spec(rng, False, N=[2, 1] * 4 + [1, 1], T=2, shift="default", max_ops=3, many=1.0)
+    oracle_loop(ctx, sf, spec, 2, xs, share=True)
     for _ in range(ctx.n(40, 500)):
         spec = T.gen_spec(rng, False, single_band=True, shift="default")
         for p in spec["params"]:
